@@ -22,6 +22,13 @@ def classify(why, f, c, o):
     # D13: terminate_broken iterates pending_work_items while the feeder error path pops from it
     if "mgr:RuntimeError" in died and "changed size during iteration" in died:
         return {"defect": "D13"}
+    # D23: the reusable executor's call queue has 2 * cpu_count() + 1 slots whatever max_workers is: with more workers
+    #      than slots, the tasks beyond the queue capacity are not dispatched to idle workers until a result comes back
+    cpus = c["scn"]["exec"].get("cpus")
+    if cpus and why.startswith("C08: fewer than max_workers long tasks run") and c["scn"]["exec"].get("kind") == "reusable":
+        probes = [op[1] for u in c["scn"]["users"].values() for op in u if op[0] == "sat_probe"]
+        if probes and min(probes) > 2 * cpus + 1:
+            return {"defect": "D23"}
     crash_at = f.get("crash_at", [])
     # D7: worker dies after writing only part of a result message: the manager blocks in recv() forever
     if hang and "rq.w.send2" in crash_at and any(b.startswith("mgr@rq.r.recv") for b in blocked):
